@@ -351,7 +351,8 @@ def run_harness(h, scratch, slot, logdir):
     if not os.path.isdir(tdir) and os.path.isdir(base):
         subprocess.call(["cp", "-a", base, tdir])
     logpath = os.path.join(logdir, h["id"] + ".log")
-    cap = int(float(h["cap"]) * float(os.environ.get("VERIF_CAP_SCALE", "3")))
+    default_scale = "3" if os.environ.get("VERIF_TIER_EFFECTIVE", "quick") == "quick" else "1"
+    cap = int(float(h["cap"]) * float(os.environ.get("VERIF_CAP_SCALE", default_scale)))
     # first run without trace generation (concrete playback costs ~10x on harnesses with covers)
     rc, to, wall = run_capped(kani_cmd(h, scratch, tdir, playback=False), scratch.repo, cap, logpath)
     text = open(logpath, errors="replace").read()
@@ -596,6 +597,8 @@ def main(argv):
         violations = []
         inconclusive = []
         known_lines = []
+        also_failed = []
+        undecided = []
         for r in results:
             h = byid[r["id"]]
             if h["expect"] == "fail":
@@ -621,6 +624,11 @@ def main(argv):
                 continue
             if r["status"] == "FAIL":
                 tests = r.get("playback") or []
+                if violations and not os.environ.get("VERIF_REPLAY_ALL"):
+                    # one natively confirmed violation decides the exit code; further solver counterexamples are
+                    # listed but not replayed (each replay costs two test-profile builds)
+                    also_failed.append(r)
+                    continue
                 if not tests:
                     inconclusive.append((r, "counterexample without playback test"))
                     continue
@@ -636,7 +644,13 @@ def main(argv):
                 else:
                     inconclusive.append((r, "counterexample did not reproduce natively: %s" % "; ".join(detail)[:600]))
             elif r["status"] == "INCONCLUSIVE":
-                inconclusive.append((r, r["reason"]))
+                if h.get("besteffort", "").startswith("y") and ("timeout" in r["reason"] or "memory" in r["reason"]
+                                                               or "verdict FAILED without failed check" in r["reason"]):
+                    # a best-effort deep harness that did not finish within its cap: reported as undecided in the
+                    # evidence; it is not a pass and not counted, but it does not make the whole check inconclusive
+                    undecided.append((r, r["reason"]))
+                else:
+                    inconclusive.append((r, r["reason"]))
         for r in aux_results:
             if r["status"] == "FAIL":
                 cp = os.path.join(os.environ.get("VERIF_OUT", os.path.join(VERIF, "out")), "replay", prop, r["id"] + ".json")
@@ -650,6 +664,10 @@ def main(argv):
             log(l)
         for r, why in inconclusive:
             log("INCONCLUSIVE property=%s harness=%s reason=%s" % (prop, r["id"], why))
+        for r, why in undecided:
+            log("UNDECIDED (best-effort harness, not counted) property=%s harness=%s reason=%s" % (prop, r["id"], why))
+        for r in also_failed:
+            log("  also refuted by the solver (not replayed): harness=%s: %s" % (r["id"], r["reason"]))
         for r, cp in violations:
             log("VIOLATION property=%s replay=%s" % (prop, cp))
             log("  harness=%s failed: %s" % (r["id"], r.get("reason", "")))
@@ -658,7 +676,7 @@ def main(argv):
         if not a.no_evidence:
             write_evidence(prop, a, seed, results, aux_results, sel, t_start, sc,
                            violations=len(violations), inconclusive=[(r["id"], w) for r, w in inconclusive],
-                           known=known_lines)
+                           known=known_lines, undecided=[(r["id"], w) for r, w in undecided])
     if violations:
         return 1
     if inconclusive:
@@ -668,7 +686,7 @@ def main(argv):
 
 
 def write_evidence(prop, a, seed, results, aux_results, sel, t_start, sc, violations=0, inconclusive=(),
-                   known=(), note=""):
+                   known=(), note="", undecided=()):
     byid = {h["id"]: h for h in sel}
     passed = [r for r in results if r["status"] == "PASS"]
     queries = sum(r["queries"] for r in results) + sum(r.get("queries", 0) for r in aux_results)
@@ -705,6 +723,7 @@ def write_evidence(prop, a, seed, results, aux_results, sel, t_start, sc, violat
             "harnesses_passed": len(passed),
             "harnesses_failed_expected": len([r for r in results if r["status"] == "FAIL" and byid[r["id"]]["expect"] == "fail"]),
             "inconclusive": [list(x) for x in inconclusive],
+            "undecided_best_effort": [list(x) for x in undecided],
             "known_findings_reported": list(known),
             "solver_time_s": round(sum(r["solver_s"] for r in results) + sum(r.get("solver_s", 0) for r in aux_results), 1),
             "pristine_tree_scan": sc.pristine,
